@@ -251,12 +251,12 @@ func lbvcCheckImage(img *lbvcCrashImage, opts Options) (bad string) {
 			return fmt.Sprintf("%s: offset %d reads %q after the crash, the completed append stored %q", where, o, vals[i], want)
 		}
 	}
-	// retention removes whole segments from the oldest end only: whatever instant the process died at, what is left is
-	// a contiguous run of offsets, not a log with a hole in it
-	if strings.Contains(img.desc, "workload retention") {
+	// retention removes whole segments from the oldest end only, a truncation from the newest end only: whatever
+	// instant the process died at, what is left is a contiguous run of offsets, not a log with a hole in it
+	if strings.Contains(img.desc, "workload retention") || strings.Contains(img.desc, "workload truncate") {
 		for i := 1; i < len(offs); i++ {
 			if offs[i] != offs[i-1]+1 {
-				return fmt.Sprintf("%s: the reopened log reads offsets %v - a hole in the middle of the log: the retention pass had removed a segment that was not the oldest one left", where, offs)
+				return fmt.Sprintf("%s: the reopened log reads offsets %v - a hole in the middle of the log: a segment was removed that was neither the oldest one left (retention) nor the newest (truncation)", where, offs)
 			}
 		}
 	}
